@@ -16,4 +16,4 @@ one() {
   rm -rf $S
 }
 export -f one; export BIN
-ls -d $D/C*/r* 2>/dev/null | sort | xargs -P $J -I{} bash -c 'one {}'
+ls -d $D/C*/[rs]* 2>/dev/null | sort | xargs -P $J -I{} bash -c 'one {}'
